@@ -1168,7 +1168,7 @@ class VM:
             # Built-in typed array methods
             typed_array_methods = ["toString", "join", "subarray", "set"]
             if key_str in typed_array_methods:
-                return self._make_typed_array_method(obj, key_str)
+                return self._native_method("typed_array", obj, key_str)
             return obj.get(key_str)
 
         if isinstance(obj, JSArray):
@@ -1205,13 +1205,13 @@ class VM:
                 "sort",
             ]
             if key_str in array_methods:
-                return self._make_array_method(obj, key_str)
+                return self._native_method("array", obj, key_str)
             return obj.get(key_str)
 
         if isinstance(obj, JSRegExp):
             # RegExp methods and properties
             if key_str in ("test", "exec", "toString"):
-                return self._make_regexp_method(obj, key_str)
+                return self._native_method("regexp", obj, key_str)
             # RegExp properties
             if key_str in (
                 "source",
@@ -1305,7 +1305,7 @@ class VM:
                 "toString",
             ]
             if key_str in string_methods:
-                return self._make_string_method(obj, key_str)
+                return self._native_method("string", obj, key_str)
             return UNDEFINED
 
         if isinstance(obj, (int, float)):
@@ -1317,7 +1317,7 @@ class VM:
                 "toPrecision",
                 "valueOf",
             ):
-                return self._make_number_method(obj, key_str)
+                return self._native_method("number", obj, key_str)
             return UNDEFINED
 
         # Python callable (including JSBoundMethod)
@@ -1691,14 +1691,47 @@ class VM:
         }
         return methods.get(method, lambda *args: UNDEFINED)
 
+    def _native_method(self, kind: str, obj: Any, name: str) -> Any:
+        """A built-in method of obj, remembering which method it is so that
+        call/apply/bind can hand it another receiver of the same kind."""
+        fn = getattr(self, "_make_%s_method" % kind)(obj, name)
+        try:
+            fn._native_method = (kind, name)
+        except AttributeError:
+            pass
+        return fn
+
+    def _native_method_for(self, fn: Any, this_val: Any) -> Any:
+        """fn itself, or (for a built-in array/string/number/regexp method) the
+        same method with this_val as its receiver."""
+        from .values import JSTypedArray
+
+        tag = getattr(fn, "_native_method", None)
+        if tag is None:
+            return fn
+        kind, name = tag
+        kinds = {
+            "array": JSArray,
+            "typed_array": JSTypedArray,
+            "regexp": JSRegExp,
+            "string": str,
+            "number": (int, float),
+        }
+        if isinstance(this_val, bool) or not isinstance(this_val, kinds[kind]):
+            return fn
+        return self._native_method(kind, this_val, name)
+
     def _make_callable_method(self, fn: Any, method: str) -> Any:
         """Create a method for Python callables (including JSBoundMethod)."""
         from .values import JSBoundMethod
+
+        unbound = fn
 
         def call_fn(*args):
             """Call with explicit this and individual arguments."""
             this_val = args[0] if args else UNDEFINED
             call_args = list(args[1:]) if len(args) > 1 else []
+            fn = self._native_method_for(unbound, this_val)
             # JSBoundMethod expects this as first arg
             if isinstance(fn, JSBoundMethod):
                 return fn(this_val, *call_args)
@@ -1719,6 +1752,7 @@ class VM:
             else:
                 apply_args = []
 
+            fn = self._native_method_for(unbound, this_val)
             if isinstance(fn, JSBoundMethod):
                 return fn(this_val, *apply_args)
             return fn(*apply_args)
@@ -1727,6 +1761,7 @@ class VM:
             """Create a bound function with fixed this."""
             bound_this = args[0] if args else UNDEFINED
             bound_args = list(args[1:]) if len(args) > 1 else []
+            fn = self._native_method_for(unbound, bound_this)
 
             if isinstance(fn, JSBoundMethod):
 
